@@ -201,7 +201,7 @@ async fn run_remote(
     join_handles(handles).await;
 
     if !plan.delete.is_empty() {
-        apply_remote_deletes(dir, host, remote_root, local_root, &plan.delete).await;
+        apply_remote_deletes(dir, host, remote_root, local_root, &plan.delete, &progress).await;
     }
     report(start, &progress, &plan, &src_desc, &dst_desc, opts.verbose)
 }
@@ -233,11 +233,16 @@ async fn apply_remote_deletes(
     remote_root: &str,
     local_root: &Path,
     dels: &[PathBuf],
+    progress: &TransferProgress,
 ) {
+    // A delete that fails is recorded like a failed transfer, so the run reports it
+    // and exits non-zero instead of claiming the mirror is exact.
     match dir {
         Dir::Pull => {
             for rel in dels {
-                let _ = std::fs::remove_file(local_root.join(rel));
+                if let Err(e) = std::fs::remove_file(local_root.join(rel)) {
+                    progress.record_err(&rel.display().to_string(), &format!("delete: {e}"));
+                }
             }
         }
         Dir::Push => {
@@ -249,19 +254,35 @@ async fn apply_remote_deletes(
             for rel in dels {
                 let _ = write!(list, "{}/{}\0", remote_root, rel.display());
             }
-            if let Ok(mut child) = tokio::process::Command::new("ssh")
-                .arg(host)
-                .arg("xargs -0 rm -f --")
-                .stdin(std::process::Stdio::piped())
-                .stdout(std::process::Stdio::null())
-                .stderr(std::process::Stdio::piped())
-                .spawn()
-            {
+            let outcome: Result<(), String> = async {
+                let mut child = tokio::process::Command::new("ssh")
+                    .arg(host)
+                    .arg("xargs -0 rm -f --")
+                    .stdin(std::process::Stdio::piped())
+                    .stdout(std::process::Stdio::null())
+                    .stderr(std::process::Stdio::piped())
+                    .spawn()
+                    .map_err(|e| format!("ssh spawn: {e}"))?;
                 if let Some(mut stdin) = child.stdin.take() {
-                    let _ = stdin.write_all(list.as_bytes()).await;
+                    stdin
+                        .write_all(list.as_bytes())
+                        .await
+                        .map_err(|e| format!("write: {e}"))?;
                     drop(stdin);
                 }
-                let _ = child.wait_with_output().await;
+                let result = child
+                    .wait_with_output()
+                    .await
+                    .map_err(|e| format!("ssh wait: {e}"))?;
+                if result.status.success() {
+                    Ok(())
+                } else {
+                    Err(String::from_utf8_lossy(&result.stderr).into_owned())
+                }
+            }
+            .await;
+            if let Err(e) = outcome {
+                progress.record_err("remote delete", &e);
             }
         }
     }
@@ -315,7 +336,10 @@ async fn run_local(
 
     if !plan.delete.is_empty() {
         for rel in &plan.delete {
-            let _ = std::fs::remove_file(dst.join(rel));
+            // A failed delete counts as a failure of the run (non-zero exit).
+            if let Err(e) = std::fs::remove_file(dst.join(rel)) {
+                progress.record_err(&rel.display().to_string(), &format!("delete: {e}"));
+            }
         }
         eprintln!("Deleted {} stale file(s)", plan.delete.len());
     }
